@@ -1,0 +1,16 @@
+//go:build verif
+
+// Contracts for tempfile.go, checked by /verif (govc). Comment-only file.
+
+package tempfile
+
+//@ func (c *Creator) Create(base string, legacy bool) (*os.File, string, error)
+//@   serves C04 C08 C14
+//@   requires c != nil
+//@   modifies c.idum
+//@   ensures[C04] named: result2 == nil ==> (result0 != nil && fileName(ref(result0)) == (legacy ? base + "-" + result1 + ".v1" : base + "-" + result1))
+//@   ensures[C14] failed: result2 != nil ==> result0 == nil
+//@   loop 0 modifies c.idum
+//@   gmodifies tmpOpen, tmpName, tmpRandom
+//@   gensures result2 == nil ==> (tmpOpen == old(tmpOpen) + 1 && tmpName == fileName(ref(result0)) && tmpRandom == result1)
+//@   gensures result2 != nil ==> (tmpOpen == old(tmpOpen) && tmpName == old(tmpName) && tmpRandom == old(tmpRandom))
